@@ -189,3 +189,14 @@ mut('c20-smooth-ranking-running-peak', 'C20', 'knee_ranking.py',
 mut('c20-cm-ravel-memory-order', 'C20', 'evaluation.py',
     "    knees_points_x = points[knees][:, 0]", "    knees_points_x = points.ravel(order='K')[2*np.asarray(knees, dtype=int)]",
     'cm() reads the x column through memory order (wrong for Fortran-ordered or strided points)')
+
+
+# ---- reverts of the four repairs made in /repo (known_findings.json "fixed" entries suppress nothing) -------
+mut('c20-revert-fix-min-point-sort', 'C20', 'rdp.py', "    t = sorted(t, reverse=True)", "    t.sort(reverse=True)",
+    'revert of 4beead0: min_point_rdp sorts the caller\'s list in place')
+mut('c20-revert-fix-ccw', 'C20', 'convex_hull.py', None, None, 'revert of 4327d19: graham_scan_lower/upper call the undefined name ccw',
+    scope=('def graham_scan_lower(', 'def graham_scan_upper('), repl=('and _ccw(points[', 'and ccw(points['))
+mut('c20-revert-fix-ema', 'C20', 'kneedle.py', None, None, 'revert of 3ba1656: kneedle calls the missing uts.ema.linear',
+    scope=('def _knee(', 'def _knees('), repl=('ema.ema_linear(', 'ema.linear('))
+mut('c20-revert-fix-contiguous', 'C20', 'linear_fit.py', "    p = np.ascontiguousarray(p)\n", "    p = p\n",
+    'revert of 06db5f8: shortest_distance_points differs in the last bit for Fortran-ordered points (rare: data dependent)')
